@@ -84,6 +84,22 @@ func cmdDev(args []string) int {
 		u := p.encodeUnit(c)
 		units = append(units, u)
 	}
+	for _, sc := range p.CS.Scans {
+		sel := len(fs.Args()) == 0
+		for _, a := range fs.Args() {
+			if strings.Contains(sc.Pkg+" "+sc.Target, a) {
+				sel = true
+			}
+			for _, pr := range sc.Props {
+				if pr == a {
+					sel = true
+				}
+			}
+		}
+		if sel {
+			units = append(units, p.runScan(sc))
+		}
+	}
 	for _, e := range p.errs {
 		fmt.Println("CONTRACT ERROR:", e)
 	}
